@@ -259,18 +259,15 @@ class Kernel:
     # -- scheduling ------------------------------------------------------
     def _runnable(self):
         out = []
-        tasks = self.tasks
-        for t in tasks:
+        lp = self.last_progress
+        for t in self.tasks:
             st = t.state
             if st == "runnable":
                 out.append(t)
-            elif st == "spinning":
-                # eligible again only after some other task has made a step
-                mark = t.spin_mark
-                for o in tasks:
-                    if o is not t and o.steps_at > mark:
-                        out.append(t)
-                        break
+            elif st == "spinning" and lp > t.spin_mark:
+                # a failed native try-lock can only succeed after somebody made real
+                # progress (a step that was not itself a failed try-lock)
+                out.append(t)
         return out
 
     def _fire_timer(self):
@@ -414,10 +411,6 @@ class Kernel:
         cur = self.cur
         self._step(("spin", on))
         self.spins += 1
-        if self.steps - self.last_progress > 4 * len(self.tasks) + 8 and not self._has_live_timer() \
-                and not any(t.state == "runnable" for t in self.tasks if t is not cur):
-            # every live task is spinning or blocked for good and nobody has made progress
-            self.fail(Outcome.DEADLOCK, self._blocked_desc(extra=f"{cur.name}:spin:{on}"))
         cur.state = "spinning"
         cur.spin_mark = self.steps
         cur.wait_on = on
